@@ -59,6 +59,14 @@ pub(crate) fn read_escaped_string(
             if let Some((_, next_char)) = chars.next() {
                 match next_char {
                     '\n' | '"' | '\'' | '\\' => value.push(next_char as u8),
+                    '\r' => {
+                        // a backslash in front of a line break gives a line feed,
+                        // and a CR LF sequence counts as one line break
+                        if let Some((_, '\n')) = chars.peek() {
+                            chars.next();
+                        }
+                        value.push(b'\n');
+                    }
                     'n' => value.push(b'\n'),
                     't' => value.push(b'\t'),
                     'a' => value.extend("\u{7}".as_bytes()),
